@@ -25,7 +25,23 @@ cp $DEMO $W/$PKGDIR/zz_demo_test.go
 (cd $W && timeout 600 go test -vet=off -count=1 -run "^$RUNPAT" ./$PKGDIR > $OUT/demo_without.txt 2>&1); R0=$?
 res "demo without change: exit $R0"
 # 2. apply the change
-(cd $W && git apply $OUT/patch.diff) || { res "PATCH DOES NOT APPLY"; exit 2; }
+(cd $W && git apply $OUT/patch.diff) || { res "git apply failed (hook lines added since the change was written?): retrying with patch -F3";
+  (cd $W && git checkout -q -- . && patch -p1 -F3 --no-backup-if-mismatch < $OUT/patch.diff > $OUT/patch_fuzz.log 2>&1 && ! find . -name '*.rej' | grep -q .) || {
+    res "patch -F3 failed: three-way merge against the commit the change was written on (${SEEDBASE:-9bfe275})"
+    (cd $W && git checkout -q -- . && git clean -fdq
+     B=/tmp/seedbase_$ID; rm -rf $B; mkdir -p $B/base $B/theirs
+     ok=1
+     for f in $(grep '^+++ b/' $OUT/patch.diff | sed 's#^+++ b/##'); do
+       mkdir -p $B/base/$(dirname $f) $B/theirs/$(dirname $f)
+       git -C /repo show ${SEEDBASE:-9bfe275}:$f > $B/base/$f 2>/dev/null || : > $B/base/$f
+     done
+     cp -r $B/base/. $B/theirs/ && (cd $B/theirs && patch -p1 --no-backup-if-mismatch < $OUT/patch.diff > /dev/null 2>&1) || ok=0
+     for f in $(grep '^+++ b/' $OUT/patch.diff | sed 's#^+++ b/##'); do
+       [ -f $f ] || { cp $B/theirs/$f $f; continue; }
+       git merge-file $f $B/base/$f $B/theirs/$f || ok=0
+     done
+     rm -rf $B; [ $ok = 1 ]) || { res "PATCH DOES NOT APPLY"; exit 2; }
+    (cd $W && git diff > $OUT/patch_adapted.diff); }; }
 (cd $W && go build ./... ) || { res "DOES NOT COMPILE"; exit 2; }
 (cd $W && timeout 600 go test -vet=off -count=1 -run "^$RUNPAT" ./$PKGDIR > $OUT/demo_with.txt 2>&1); R1=$?
 res "demo with change: exit $R1"
